@@ -150,12 +150,12 @@ class Eval:
                     self.bind_pat(s["pat"], init, env)
                     continue
                 if r is False:
-                    self.effect(els, env, depth)
-                    return ("never",)
+                    ve = self.expr(els, env, depth)
+                    return ve if isinstance(ve, tuple) and ve[:1] == ("panic",) else ("never",)
                 key = hq.pat_key(s["pat"])
                 e_else = dict(env)
                 self.conds.append((("arm", init, "_"), True))
-                self.effect(els, e_else, depth)
+                ve = self.expr(els, e_else, depth)
                 self.conds.pop()
                 e_then = dict(env)
                 self.bind_pat(s["pat"], init, e_then)
@@ -165,6 +165,8 @@ class Eval:
                 self.merge(env, ("match", init), [(key, e_then), ("_", e_else)])
                 for i_, t_ in e_then.items():
                     env.setdefault(i_, t_)
+                if value and isinstance(ve, tuple) and ve[:1] == ("panic",):
+                    return ("match", init, ((key, v), ("_", ve)))   # the refusal is a value of the block, like a panicking match arm
                 return v
             # `if C { ...; continue / break / return }` (no else): the rest of the block runs under not C
             x = s.get("e") if s["k"] not in ("LetStmt", "ItemStmt") else None
